@@ -79,20 +79,52 @@ def o3_structures(tier):
             sts.append({"name": name, "k": k, "nc": 1 if name.startswith("C") else 0})
         if name.startswith("C"):
             sts.append({"name": name, "k": 1, "nc": 2})
+    # same name, same qubit set, different roles / order (with the same parameter, and shifted by 2 pi): == must imply the same operation
+    for name in INVERTIBLE:
+        if name.startswith("C") or name in TWO_TARGET:
+            for k in ((0, 1) if name in PARAM else (0,)):
+                for variant in ("swap_roles", "reorder_controls"):
+                    if variant == "reorder_controls" and not name.startswith("C"):
+                        continue      # XX / SWAP take no controls
+                    sts.append({"name": name, "k": k, "roles": variant})
     return sts
 
 
 @contract("C09", "O3.Gate.__eq__.soundness", targets=[(G, "Gate.__eq__")], level="S", structures=o3_structures,
           native_samples=lambda st, rnd, tier: [{"theta": v} for v in (0.3, -1.1, 5.0)])
 def o3(h, st):
-    """g1 == g2  ==>  U(g1) = lambda U(g2)   for g2.parameter = g1.parameter + 2*pi*k (the family the modulo-2pi rule identifies)"""
+    """g1 == g2  ==>  U(g1) = lambda U(g2)   for g2.parameter = g1.parameter + 2*pi*k (the family the modulo-2pi rule identifies), and for pairs with the same
+    name and qubit set but exchanged control/target roles, reordered targets or reordered controls"""
     name = st["name"]
     nt = 2 if name in TWO_TARGET else 1
-    target = list(range(nt))
-    control = list(range(nt, nt + st["nc"])) or None
     theta = h.real("theta", angle_denom=2)
     h.assume(theta > -6)
     h.assume(theta < 6)
+    if st.get("roles"):
+        p1 = theta if name in PARAM else ""
+        p2 = (theta + 2 * h.pi * st["k"]) if name in PARAM else ""
+        if st["roles"] == "swap_roles":
+            if name == "CSWAP":
+                q1, q2 = ([0, 1], [2]), ([0, 2], [1])
+            elif nt == 2:
+                q1, q2 = ([0, 1], None), ([1, 0], None)
+            else:
+                q1, q2 = ([0], [1]), ([1], [0])
+        else:
+            q1, q2 = (list(range(nt)), [nt, nt + 1]), (list(range(nt)), [nt + 1, nt])
+        g1, g2 = mk_gate(name, q1[0], q1[1], p1), mk_gate(name, q2[0], q2[1], p2)
+        n = 4
+        eq = h.call(G, "Gate.__eq__", g1, g2)
+        if eq:
+            U1, A = circ_rows([g1], n, h)
+            U2, _ = circ_rows([g2], n, h)
+            h.mat_equal("equal gates implement the same operation up to a global phase", U1, U2, A, n, up_to_phase=True)
+        else:
+            h.check("gates with different roles compare different", True)
+        h.done()
+        return
+    target = list(range(nt))
+    control = list(range(nt, nt + st["nc"])) or None
     g1 = mk_gate(name, target, control, theta)
     g2 = mk_gate(name, target, control, theta + 2 * h.pi * st["k"])
     eq = h.call(G, "Gate.__eq__", g1, g2)
@@ -241,6 +273,10 @@ def o6_structures(tier):
     for name in ("H", "X", "CNOT", "SWAP", "CZ", "S", "T", "CSWAP"):
         for sep in (None, "other", "overlap"):
             sts.append({"kind": "fixed", "name": name, "sep": sep})
+    # the second gate uses the same name and the same qubit set with the ROLES changed (control <-> target, targets reordered): G(theta ; roles) G(-theta ; roles')
+    for name in ("CRZ", "CRX", "CRY", "CPHASE", "XX", "CNOT", "CZ", "CY", "CH", "SWAP", "CSWAP"):
+        for k in ((0, 1) if name in PARAM else (0,)):
+            sts.append({"kind": "swapped", "name": name, "k": k, "sep": None})
     for g in small_circuits(tier, 3, alpha=[0, 3, 7, 8]):
         sts.append({"kind": "generic", "gates": g})
     for g in small_circuits(tier, 2, alpha=[4, 13, 15, 10, 14, 6, 16, 8, 18]):
@@ -266,7 +302,21 @@ def o6(h, st):
         name = st["name"]
         nt = 2 if name in TWO_TARGET else 1
         ctrl = [nt] if name.startswith("C") else None
-        if st["kind"] == "pair":
+        if st["kind"] == "swapped":
+            theta = ""
+            if name in PARAM:
+                theta = h.real("theta", angle_denom=2)
+                h.assume(theta > -6)
+                h.assume(theta < 6)
+            if name == "CSWAP":
+                q1, q2 = ([0, 1], [2]), ([0, 2], [1])
+            elif nt == 2:
+                q1, q2 = ([0, 1], None), ([1, 0], None)
+            else:
+                q1, q2 = ([0], [1]), ([1], [0])
+            g1 = mk_gate(name, q1[0], q1[1], theta)
+            g2 = mk_gate(name, q2[0], q2[1], (-theta + 2 * h.pi * st["k"]) if name in PARAM else "")
+        elif st["kind"] == "pair":
             theta = h.real("theta", angle_denom=2)
             h.assume(theta > -6)
             h.assume(theta < 6)
